@@ -445,6 +445,9 @@ CHECKS = {
                  samples=[dict(sp=66000, s0=5, q1=0, vacuum=False, repack=False), dict(sp=5, s0=7, q1=3, vacuum=True, repack=True)]),
         ] + [
             cell('handles3%s_q%d' % (var, q), 'harness.h_handles', 'handles3%s_q%d' % (var, q), (500, 1500),
+                 # which objects share a pack depends on the order in which the real key set is traversed: the replay also
+                 # tries sizes that fill a pack on their own
+                 replay_sweep={'sp': [11, 66000], 's0': [12, 66000]},
                  bounds='three handles: H queries (q1 in {has, get, meta, list, single get, none}), A adds, B may pack/clean, H answers view %d '
                  'of {has, bulk get, meta, list, single get}, A adds, B may pack (with/without per-pack cleaning)/clean, H itself adds, H answers '
                  'view %d again; sizes in [1,70000]%s' % (q, q, {'': '', '_small': '; pack_size_target = 10: every packed object in a pack of its own',
@@ -628,6 +631,9 @@ CHECKS = {
     ),
 }
 
+# sizes, lengths and bytes reported by the bulk calls under both look-up strategies are part of the round trip (C01)
+CHECKS['C01']['cells'] = CHECKS['C01']['cells'] + [c for c in CHECKS['C16']['cells'] if c['name'].startswith('bulk_check_v') and not c.get('thorough_only')]
+CHECKS['C02']['cells'] = CHECKS['C02']['cells'] + DIRECT_SHORT
 # maintenance through one handle after changes through another one is a history of public operations too (C02)
 CHECKS['C02']['cells'] = CHECKS['C02']['cells'] + [c for c in CHECKS['C08']['cells'] if c['name'] == 'handles_clean']
 # index and packs stay mutually consistent at every intermediate instant of the operations that append to packs or rewrite them (C03)
